@@ -286,6 +286,7 @@ type RoundCase struct {
 	Procs  int      `json:"procs"`
 	Rounds int      `json:"rounds"`
 	Yield  bool     `json:"yield"` // Gosched between steps
+	Cold   bool     `json:"cold"`  // run the plan once before anything sequential has touched the library
 }
 
 type delta struct {
@@ -305,6 +306,31 @@ func oracleRound(c RoundCase) error {
 	}
 	metrics.Enable()
 	defer metrics.Disable()
+	// phase 0: the same plan on the cold process, before anything sequential has run: lazily
+	// built tables (compiled patterns, keyword maps, caches) are initialised by goroutines that
+	// race for them; the answers are compared once the sequential ones are known
+	type coldResult struct {
+		gi  int
+		s   Step
+		got string
+	}
+	var (
+		coldMu sync.Mutex
+		cold   []coldResult
+		coldSt *metrics.Stats
+	)
+	if c.Cold {
+		metrics.Reset()
+		if err := runRound(c, -1, func(gi int, s Step, got string) {
+			coldMu.Lock()
+			cold = append(cold, coldResult{gi, s, got})
+			coldMu.Unlock()
+		}); err != nil {
+			return err
+		}
+		st := metrics.GetStats()
+		coldSt = &st
+	}
 	// phase 1: the sequential answers and the metrics each (op, input) pair causes
 	want := map[Step]string{}
 	deltas := map[Step]delta{}
@@ -351,47 +377,7 @@ func oracleRound(c RoundCase) error {
 			}
 		}
 	}
-	oversubscribed := len(c.Plan) >= runtime.GOMAXPROCS(0) // a spinner per processor starves the releasing goroutine under -race
-	for round := 0; round < c.Rounds; round++ {
-		metrics.Reset()
-		goerrors.ClearSuggestionCache() // the sequential phase primed it: make the concurrent calls compute again
-		var arrived, mismatches int32
-		var release int32
-		var first atomic.Value
-		var wg sync.WaitGroup
-		for gi, g := range c.Plan {
-			wg.Add(1)
-			go func(gi int, g []Step) {
-				defer wg.Done()
-				// spin barrier: everyone starts within nanoseconds of each other
-				atomic.AddInt32(&arrived, 1)
-				for atomic.LoadInt32(&release) == 0 {
-					if oversubscribed {
-						runtime.Gosched() // more spinners than processors: let the others arrive
-					}
-				}
-				for _, s := range g {
-					got := ops[s.Op].run(c.Inputs[s.In])
-					if ops[s.Op].pure && got != want[s] {
-						if atomic.AddInt32(&mismatches, 1) == 1 {
-							first.Store(fmt.Sprintf("goroutine %d: %s on %q returns\n  %s\nsequentially it returns\n  %s", gi, ops[s.Op].name, clip(c.Inputs[s.In]), clip(got), clip(want[s])))
-						}
-					}
-					if c.Yield {
-						runtime.Gosched()
-					}
-				}
-			}(gi, g)
-		}
-		for atomic.LoadInt32(&arrived) < int32(len(c.Plan)) {
-			runtime.Gosched()
-		}
-		atomic.StoreInt32(&release, 1)
-		wg.Wait()
-		if mismatches > 0 {
-			return fmt.Errorf("round %d, %d goroutines: %d results differ from the sequential answer; first: %s", round, len(c.Plan), mismatches, first.Load())
-		}
-		st := metrics.GetStats()
+	checkStats := func(round int, st metrics.Stats) error {
 		check := func(name string, got, want int64) error {
 			if got != want {
 				return fmt.Errorf("round %d, %d goroutines (GOMAXPROCS %d): after quiescence metrics report %s = %d, the true value is %d", round, len(c.Plan), runtime.GOMAXPROCS(0), name, got, want)
@@ -425,8 +411,143 @@ func oracleRound(c RoundCase) error {
 		if sum != exp.errs {
 			return fmt.Errorf("round %d: ErrorsByType sums to %d, %d errors happened", round, sum, exp.errs)
 		}
+		return nil
+	}
+	// the cold round against the answers now known
+	for _, r := range cold {
+		if ops[r.s.Op].pure && r.got != want[r.s] {
+			return fmt.Errorf("cold round (first use of the library in this process, %d goroutines): goroutine %d: %s on %q returns\n  %s\nsequentially it returns\n  %s", len(c.Plan), r.gi, ops[r.s.Op].name, clip(c.Inputs[r.s.In]), clip(r.got), clip(want[r.s]))
+		}
+	}
+	if coldSt != nil {
+		if err := checkStats(-1, *coldSt); err != nil {
+			return err
+		}
+	}
+	for round := 0; round < c.Rounds; round++ {
+		metrics.Reset()
+		goerrors.ClearSuggestionCache() // the sequential phase primed it: make the concurrent calls compute again
+		var mismatches int32
+		var first atomic.Value
+		if err := runRound(c, round, func(gi int, s Step, got string) {
+			if ops[s.Op].pure && got != want[s] {
+				if atomic.AddInt32(&mismatches, 1) == 1 {
+					first.Store(fmt.Sprintf("goroutine %d: %s on %q returns\n  %s\nsequentially it returns\n  %s", gi, ops[s.Op].name, clip(c.Inputs[s.In]), clip(got), clip(want[s])))
+				}
+			}
+		}); err != nil {
+			return err
+		}
+		if mismatches > 0 {
+			return fmt.Errorf("round %d, %d goroutines: %d results differ from the sequential answer; first: %s", round, len(c.Plan), mismatches, first.Load())
+		}
+		if err := checkStats(round, metrics.GetStats()); err != nil {
+			return err
+		}
 	}
 	return nil
+}
+
+// runRound releases the plan's goroutines together and waits for them. A round in which no
+// step completes for idleLimit while every goroutine still alive is parked on a lock is a
+// deadlock: a call that never returns, reported with the goroutines' positions.
+func runRound(c RoundCase, round int, result func(gi int, s Step, got string)) error {
+	oversubscribed := len(c.Plan) >= runtime.GOMAXPROCS(0) // a spinner per processor starves the releasing goroutine under -race
+	var arrived, release int32
+	var progress int64
+	var wg sync.WaitGroup
+	for gi, g := range c.Plan {
+		wg.Add(1)
+		go roundWorker(c, gi, g, &wg, &arrived, &release, &progress, oversubscribed, result)
+	}
+	for atomic.LoadInt32(&arrived) < int32(len(c.Plan)) {
+		runtime.Gosched()
+	}
+	atomic.StoreInt32(&release, 1)
+	done := make(chan struct{})
+	go func() { wg.Wait(); close(done) }()
+	tick := time.NewTicker(time.Second)
+	defer tick.Stop()
+	last, idle := int64(-1), 0
+	for {
+		select {
+		case <-done:
+			return nil
+		case <-tick.C:
+			cur := atomic.LoadInt64(&progress)
+			if cur != last {
+				last, idle = cur, 0
+				continue
+			}
+			idle++
+			if idle < idleLimit {
+				continue
+			}
+			alive, parked, where := workerStates()
+			if alive > 0 && parked == alive {
+				return fmt.Errorf("round %d, %d goroutines (GOMAXPROCS %d): deadlock - no step has completed for %d s and all %d goroutines still inside a call are parked on a lock:\n%s", round, len(c.Plan), runtime.GOMAXPROCS(0), idle, alive, where)
+			}
+		}
+	}
+}
+
+const idleLimit = 30 // seconds without a completed step before the goroutines' states are examined
+
+func roundWorker(c RoundCase, gi int, g []Step, wg *sync.WaitGroup, arrived, release *int32, progress *int64, oversubscribed bool, result func(int, Step, string)) {
+	defer wg.Done()
+	// spin barrier: everyone starts within nanoseconds of each other
+	atomic.AddInt32(arrived, 1)
+	for atomic.LoadInt32(release) == 0 {
+		if oversubscribed {
+			runtime.Gosched() // more spinners than processors: let the others arrive
+		}
+	}
+	for _, s := range g {
+		got := ops[s.Op].run(c.Inputs[s.In])
+		result(gi, s, got)
+		atomic.AddInt64(progress, 1)
+		if c.Yield {
+			runtime.Gosched()
+		}
+	}
+}
+
+// workerStates reads the goroutine dump: how many plan goroutines are alive, how many of
+// them wait on a sync primitive, and the innermost library frames of those.
+func workerStates() (alive, parked int, where string) {
+	buf := make([]byte, 8<<20)
+	buf = buf[:runtime.Stack(buf, true)]
+	var w []string
+	for _, blk := range strings.Split(string(buf), "\n\n") {
+		if !strings.Contains(blk, "c10.roundWorker(") {
+			continue
+		}
+		alive++
+		head := blk
+		if i := strings.IndexByte(blk, '\n'); i >= 0 {
+			head = blk[:i]
+		}
+		st := head
+		if i := strings.IndexByte(head, '['); i >= 0 {
+			st = head[i+1:]
+		}
+		if strings.HasPrefix(st, "sync.") || strings.HasPrefix(st, "semacquire") {
+			parked++
+			var frames []string
+			for _, l := range strings.Split(blk, "\n") {
+				if strings.Contains(l, "GoSQLX/") && !strings.HasPrefix(l, "\t") {
+					frames = append(frames, strings.TrimSpace(l))
+					if len(frames) == 3 {
+						break
+					}
+				}
+			}
+			if len(w) < 6 {
+				w = append(w, "  "+strings.TrimSuffix(head, ":")+" in "+strings.Join(frames, " <- "))
+			}
+		}
+	}
+	return alive, parked, strings.Join(w, "\n")
 }
 
 func clip(s string) string {
@@ -441,7 +562,7 @@ var roundCheck *hx.Check[RoundCase]
 func init() { roundCheck = hx.NewCheck("concurrent_rounds", oracleRound) }
 
 func TestConcurrentRounds(t *testing.T) {
-	hx.Rule("concurrent_rounds", fmt.Sprintf("a case is a workload of 6-30 generated inputs of distinct sizes (model statements, corrupted, corpus, soup) and a plan: 2-64 goroutines x 1-12 steps, each step one of %d operations (tokenize x2, five parse entry points, recovery, three formatters, extract, two scanners, lint, keyword suggestion cache (cleared before every round, incl. misspelt words), a three-statement parse cancelled at poll 1-9, metrics.GetStats, SetSpan/GetSpan on an own node, direct metrics.Record*) on one input; GOMAXPROCS in {1,2,4,16}; optional Gosched between steps; run in a child built with -race (GORACE=halt_on_error=1) for 3-12 rounds with metrics.Reset between them, goroutines released by a spin barrier; oracles: every result equals the sequential answer, no race report or fatal error ends the child, after quiescence TokenizeOperations/Errors/TotalBytes/ParseOperations/ASTPool counters/ErrorsByType/MinQuerySize/MaxQuerySize equal the sums/extremes of the per-step sequential deltas; non-trivial = >= 4 goroutines, >= 2 operation kinds, >= 2 input sizes; distinct = plan + inputs", len(ops)))
+	hx.Rule("concurrent_rounds", fmt.Sprintf("a case is a workload of 6-30 generated inputs of distinct sizes (model statements, corrupted, corpus, soup) and a plan: 2-64 goroutines x 1-12 steps, each step one of %d operations (tokenize x2, five parse entry points, recovery, three formatters, extract, two scanners, lint, keyword suggestion cache (cleared before every round, incl. misspelt words), a three-statement parse cancelled at poll 1-9, metrics.GetStats, SetSpan/GetSpan on an own node, direct metrics.Record*) on one input; GOMAXPROCS in {1,2,4,16}; optional Gosched between steps; run in a child built with -race (GORACE=halt_on_error=1) for 3-12 rounds with metrics.Reset between them, goroutines released by a spin barrier; three cases in four run the plan once more as the very first use of the library in the child (cold round: lazily built tables are initialised under contention) before the sequential answers are computed; oracles: every result equals the sequential answer, no race report or fatal error ends the child, no round stalls (30 s without a completed step while every live goroutine is parked on a lock = deadlock), after quiescence TokenizeOperations/Errors/TotalBytes/ParseOperations/ASTPool counters/ErrorsByType/MinQuerySize/MaxQuerySize equal the sums/extremes of the per-step sequential deltas; non-trivial = >= 4 goroutines, >= 2 operation kinds, >= 2 input sizes; distinct = plan + inputs", len(ops)))
 	if !raceEnabled && !hx.Leaf() {
 		hx.Note("race_detector", "binary built WITHOUT -race: data races are not observed in this run")
 	}
@@ -507,6 +628,10 @@ func TestConcurrentRounds(t *testing.T) {
 			hx.Class("concurrent_rounds", "metrics_focused_plan")
 		}
 		c.Yield = rapid.Bool().Draw(rt, "yield")
+		c.Cold = rapid.IntRange(0, 3).Draw(rt, "cold") != 0
+		if c.Cold {
+			hx.Class("concurrent_rounds", "cold_first_round")
+		}
 		hx.Case("concurrent_rounds", g >= 4 && len(kinds) >= 2, fmt.Sprint(c.Plan, c.Inputs), fmt.Sprintf("goroutines_%d", g), fmt.Sprintf("procs_%d", c.Procs))
 		hx.Sample("concurrent_rounds", map[string]interface{}{"goroutines": g, "procs": c.Procs, "rounds": c.Rounds, "inputs": len(c.Inputs), "first_plan": c.Plan[0]})
 		return c
